@@ -242,6 +242,15 @@ func buildClient(c *Case, w *world, logw io.Writer) (*regclient.RegClient, func(
 				case "useronly":
 					ch.User = a.User
 				}
+				if c.staleCfg(i) {
+					old := c.oldAccount(i)
+					if ch.Pass != "" {
+						ch.Pass = old.Pass
+					}
+					if ch.Token != "" {
+						ch.Token = old.IDToken
+					}
+				}
 				if h.AlsoDocker && h.CfgName == "" && (h.CredKind == "userpass" || h.CredKind == "token" || h.CredKind == "both") {
 					form := map[string]string{"userpass": "auth", "token": "idtoken", "both": "idtoken+auth"}[h.CredKind]
 					key := "https://" + h.Name
